@@ -190,6 +190,7 @@ func buildCases(c *core.Ctx) []kase {
 }
 
 func run(c *core.Ctx) {
+	runRefusals(c)
 	ks := buildCases(c)
 	for i, k := range ks {
 		if !c.Mine(i) {
